@@ -2478,11 +2478,11 @@ class UnionArrayType(ContentType):
 
     @property
     def is_optiontype(self):
-        return any(x.is_optiontype for x in self.contents)
+        return any(x.is_optiontype for x in self.contenttypes)
 
     @property
     def is_recordtype(self):
-        if all(x.is_recordtype for x in self.contents):
+        if all(x.is_recordtype for x in self.contenttypes):
             return True
         elif all(not x.is_recordtype for x in self.contents):
             return False
